@@ -28,7 +28,9 @@ CHECKS = {
         technique="TLA+ rules spec; TLC-generated successors replayed into make_move; TLC trace validation"),
     "C17": dict(
         text="Tactical(pos) (legal moves that capture incl. e.p., promote or give check) computed by TLC is compared as a set with "
-             "generate_quiescence_moves on every explored position not in check; in check the search uses all legal moves (C01 run).",
+             "generate_quiescence_moves on every explored position not in check; in check the search uses all legal moves (C01 run). "
+             "Observed on the REAL search as well: the move list of every quiescence node entered by completed searches (event sink; "
+             "K+P(7th) families, rules seeds, game positions) must be Tactical(p), or Legal(p) in check (ChessTrace.tla, action TQNode).",
         design_ref="DESIGN.md section 5, C17", note=_RULES_NOTE,
         technique="TLA+ rules spec; TLC-generated tactical sets replayed into the quiescence move filter; TLC trace validation"),
     "C15": dict(
@@ -36,7 +38,8 @@ CHECKS = {
              "exhaustively (2-3 keys x depths 0..2 x 2 payloads, all histories up to length 4/5) that the table always equals the "
              "history-level reference 'last store of maximal depth per key', OnlyStored, LookupFaithful and the action properties "
              "DeepestWins / NoCrossKey. Every behaviour of the bounded model is replayed on the real TranspositionTable under "
-             "adversarial 64-bit key sets; random store/retrieve histories of the real table are validated by TLC (TTTrace.tla).",
+             "adversarial 64-bit key sets; random store/retrieve histories of the real table are validated by TLC (TTTrace.tla). Thorough tier: "
+             "TLAPS proves the inductive invariant of TTCore.tla for unbounded histories and arbitrary key / depth / data sets (proofs/TTProof.tla).",
         design_ref="DESIGN.md section 5, C15",
         note="Trusted: TLC; payload (eval, move, bound) treated as opaque text. Exhaustive within the stated constants; longer histories "
              "and 64-bit keys sampled. A lookup answering 'nothing' is accepted (the property allows it) and reported as deviation.",
@@ -67,9 +70,12 @@ CHECKS = {
              "window, pure). Positions are generated by the specification (random games, seeds, extremal material); the harness evaluates "
              "p, SwapSide(p), Mirror(p), p on ONE Evaluator in random interleavings, together with near-miss companions (colours exchanged "
              "in place per piece kind: same colour-blind occupancy, different position); TLC validates the transforms against its own "
-             "definitions and the relations on every event (EvalTrace.tla), keeping a memo of all values for purity.",
+             "definitions and the relations on every event (EvalTrace.tla), keeping a memo of all values for purity keyed on placement and "
+             "side to move only (companions with castling rights / e.p. square dropped and other move counters must evaluate equally). "
+             "EvalFn.tla transcribes the evaluation itself (tables generated, formula by hand); every recorded value is compared with it "
+             "(difference = SPEC-DRIFT, no verdict).",
         design_ref="DESIGN.md section 5, C14",
-        note="Numeric content of the evaluation is not specified. Positions sampled; bound = 16383.",
+        note="The numbers of the evaluation are transcribed (EvalFn.tla) but not part of the verdict. Positions sampled; bound = 16383.",
         technique="TLA+ relations; specification-generated positions evaluated by the real Evaluator; TLC trace validation"),
     "C03": dict(
         text="Uci.tla: CmdGo is a relation - zero or more info lines then exactly one bestmove whose move is in {Uci(m) : m in Legal(board)}, "
@@ -98,14 +104,16 @@ CHECKS = {
              "script of depth-limited searches is run in three separate processes (three key draws) and once behind a table-filling "
              "prefix + ucinewgame; all runs are validated in one trace, every go must agree with memo or extend it. Also: the script "
              "without its leading position commands, fresh and behind a repetition-history prefix + ucinewgame; and table pressure - one "
-             "game searched to depth 6-7 after every few moves without ucinewgame, in several processes (several key draws).",
+             "game searched to depth 6-7 after every few moves without ucinewgame, in several processes (several key draws), and games whose first "
+             "search is a depth-8 one (more than 2^18 table entries). A game continued ACROSS a ucinewgame (the next position command extends "
+             "the abandoned game) and every tail that follows a ucinewgame are also run in a fresh process and must agree.",
         design_ref="DESIGN.md section 5, C13", note=_UCI_NOTE,
         technique="TLA+ protocol spec with output memo; repeated runs of TLC-simulated scripts on the real binary; TLC trace validation"),
     "C16": dict(
         text="Uci.tla: uci -> id lines then uciok; isready -> readyok; unknown / blank lines -> no output; quit and end of input -> exit "
              "status 0. TLC simulates interleavings with position/go, ending by quit or by closing stdin; the real binary is run; "
              "TLC validates outputs and exit status (UciTrace.tla). Unknown lines include blank / tab-only lines, lines that are not "
-             "valid UTF-8, NUL bytes and very long lines. Random malformed go lines through the hooked handler (GoParse.tla): a parser "
+             "valid UTF-8, NUL bytes and very long lines; the last command may arrive without a line terminator before end of input. Random malformed go lines through the hooked handler (GoParse.tla): a parser "
              "failure is a violation, a different parse is SPEC-DRIFT.",
         design_ref="DESIGN.md section 5, C16", note=_UCI_NOTE,
         technique="TLA+ protocol spec; TLC-simulated scripts run on the real binary; TLC trace validation"),
